@@ -62,14 +62,14 @@ type Interp struct {
 	pc   []*Term
 	vars []*Term
 
-	prefix    []int32
-	pos       int
-	decisions []int32
-	siblings  []workItem
-	model     map[string]uint64
-	modelMemo map[int]uint64
-	fb        map[int]bool
-	fv        map[int]uint64
+	prefix      []int32
+	pos         int
+	decisions   []int32
+	siblings    []workItem
+	model       map[string]uint64
+	modelMemo   map[int]uint64
+	fb          map[int]bool
+	fv          map[int]uint64
 	unknownFeas bool
 
 	globals  map[*ssa.Global]*Cell
@@ -77,25 +77,25 @@ type Interp struct {
 	nextMap  int
 	nvar     int
 
-	draws    []Draw
-	ufs      map[string]*Term
-	ufKeys   []string
-	asserts  []AssertRec
-	reach    map[string]int
-	obs      []obsRec
-	gwrites  map[string]bool
-	fnsSeen  map[*ssa.Function]int
-	steps    int
-	depth    int
-	symOrder bool
-	inInit   bool
+	draws     []Draw
+	ufs       map[string]*Term
+	ufKeys    []string
+	asserts   []AssertRec
+	reach     map[string]int
+	obs       []obsRec
+	gwrites   map[string]bool
+	fnsSeen   map[*ssa.Function]int
+	steps     int
+	depth     int
+	symOrder  bool
+	inInit    bool
 	jsonBlobs map[*Backing]*jsonBlob
 	blobList  []*jsonBlob
 	syncMaps  map[string]*MapV
 	panicVal  Value
 	recovered bool
 	panicking bool
-	wraps    map[string]Iface
+	wraps     map[string]Iface
 
 	trace []string
 }
